@@ -3,7 +3,7 @@
     against the implementation, on real documents and real values.  TFrom / TTo: no converter tables except for date-times / times,
     which enter as (text <-> instant) pairs filled by the real DateTime / Time converters; TFromM / TToM: no tables at all on the
     reading side - date-times go through the C09 engine (Model/DateTimeM.v via Model/TypedDT.v). *)
-From OfxV Require Import Base.Prelude Model.Schema Model.Convert Model.Scalars Model.Typed Model.TypedDT Model.ValidB Model.ConvertCases Gen.DateTimeGen.
+From OfxV Require Import Base.Prelude Model.Schema Model.Convert Model.Scalars Model.Serialize Model.Typed Model.TypedDT Model.ValidB Model.ConvertCases Gen.DateTimeGen.
 Local Open Scope string_scope.
 
 Definition dt_table := list (bool * text * result (option pyval)).          (* is_time, text, outcome of convert *)
@@ -34,7 +34,13 @@ Inductive tcase :=
 (** the same with NO date-time table on the reading side: Types.DateTime / Types.Time as the C09 engine models them over the
     regenerated digit and zone tables (Model/TypedDT.v); on the writing side the engine's writer for every UTC value *)
 | TFromM (e : etree) (exp : result (pinst * list string))
-| TToM (tb : udt_table) (i : pinst) (exp : result etree).
+| TToM (tb : udt_table) (i : pinst) (exp : result etree)
+(** membership in the domain of the round-trip theorems, decided with the engines' converters alone (no table): the writer is
+    the typed one for UTC values followed by the serializer's escaping *)
+| TValidM (i : pinst) (exp : bool).
+
+Definition unconv_esc (table : list (N * ety)) (t : N) (x : pyval) : result text :=
+  rmap Serialize.escape_cdata (unconv_typed table unconv_dt_utc t x).
 
 Definition tcase_ok (table : list (N * ety)) (S : schema) (c : tcase) : bool :=
   match c with
@@ -46,4 +52,5 @@ Definition tcase_ok (table : list (N * ety)) (S : schema) (c : tcase) : bool :=
     result_eqb false (fun x y => ginst_eqb pyval pyval_eqb (fst x) (fst y) && strs_eqb (snd x) (snd y))
                (from_etree pyval (conv_typed table (conv_dt_m nd_zeros tzs)) S e) exp
   | TToM tb i exp => result_eqb false etree_eqb (to_etree pyval (unconv_typed table (dunconv_utc tb)) S i) exp
+  | TValidM i exp => Bool.eqb (valid_b pyval pyval_eqb (conv_typed table (conv_dt_m nd_zeros tzs)) (unconv_esc table) S i) exp
   end.
